@@ -284,6 +284,13 @@ pub fn run() -> i32 {
         lists.push(vec![(shapes[a].clone(), "x".into()), (shapes[b].clone(), "y".into()), (shapes[c].clone(), "z".into())]);
         lists.push(vec![(shapes[c].clone(), "z".into()), (shapes[a].clone(), "x".into()), (shapes[a].clone(), "x2".into())]);
     }
+    // the SAME diagnostic text recorded twice in a row (and three times), with the same and with different locations
+    for a in (0..n).step_by(11) {
+        let mut other = shapes[a].clone();
+        other.span = if other.span == Some(1) { Some(2) } else { Some(1) };
+        lists.push(vec![(shapes[a].clone(), "same".into()), (shapes[a].clone(), "same".into())]);
+        lists.push(vec![(shapes[a].clone(), "same".into()), (other.clone(), "same".into()), (shapes[a].clone(), "same".into())]);
+    }
     lists.push(vec![]);
     let mut jobs: Vec<(String, Diagnostics, SliceOptions, Vec<String>)> = vec![];
     for l in &lists {
